@@ -190,6 +190,9 @@ def run (which : String) (hist : Bytes) (real : List String) : String :=
     | "C06" => c06 c
     | "C07" => c07 c
     | "C08" => c08 c
+    -- C09, sequential part: the serial reference the concurrent runs are compared with is itself order-independent
+    -- (every call equals the same call on a fresh set) and panic-free
+    | "C09" => let r := c08 c; if r != "pass" then r else c06 c
     | _ => "pass"
 
 end SafeHtml.Oracle.Hist
